@@ -238,6 +238,74 @@ def run(cs, counters, script=None):
     return c01.dedup(vio), done
 
 
+def explorer_case(cs, counters):
+    """modify_file_in_place through tools/pycdlib-explorer (a real subprocess fed commands on stdin):
+    a relative path is an ISO9660 path relative to the ISO9660 working directory, whatever print
+    mode is on; the file named that way gets the new content under all its names, nothing else
+    changes."""
+    import os
+    import subprocess
+    import tempfile
+    import pycdlib
+    rng = random.Random(cs)
+    vio = []
+    base = '/dev/shm' if os.path.isdir('/dev/shm') and os.access('/dev/shm', os.W_OK) else None
+    tmp = tempfile.mkdtemp(prefix='verif-c17x-', dir=base)
+    try:
+        rr = rng.random() < 0.5
+        iso = pycdlib.PyCdlib()
+        iso.new(interchange_level=3, joliet=3, rock_ridge='1.09' if rr else None, udf='2.60' if rng.random() < 0.4 else None)
+        udf = iso.udf_root is not None if hasattr(iso, 'udf_root') else False
+        contents = {}
+        iso.add_directory('/DIR1', joliet_path='/dir1', **({'rr_name': 'dir1'} if rr else {}), **({'udf_path': '/dir1'} if udf else {}))
+        for ip, jp, fill in (('/FOO.;1', '/foo', b'A'), ('/DIR1/FOO.;1', '/dir1/foo', b'B'), ('/DIR1/BAR.;1', '/dir1/bar', b'C'), ('/ZED.;1', '/zed', b'D')):
+            data = fill * rng.choice([100, 2048, 3000])
+            contents[ip] = (jp, data)
+            iso.add_fp(io.BytesIO(data), len(data), ip, joliet_path=jp, **({'rr_name': jp.rsplit('/', 1)[1]} if rr else {}), **({'udf_path': jp} if udf else {}))
+        path = os.path.join(tmp, 'img.iso')
+        iso.write(path)
+        iso.close()
+        scen = rng.choice(['abs', 'rel-iso', 'rel-other-mode', 'cd-in-other-mode'])
+        mode2 = rng.choice(['joliet'] + (['rr'] if rr else []) + (['udf'] if udf else []))
+        if scen == 'abs':
+            cmds, target = ['print_mode %s' % mode2, 'modify_file_in_place /DIR1/FOO.;1 SRC'], '/DIR1/FOO.;1'
+        elif scen == 'rel-iso':
+            cmds, target = ['cd DIR1', 'modify_file_in_place FOO.;1 SRC'], '/DIR1/FOO.;1'
+        elif scen == 'rel-other-mode':
+            cmds, target = ['cd DIR1', 'print_mode %s' % mode2, 'modify_file_in_place FOO.;1 SRC'], '/DIR1/FOO.;1'
+        else:
+            cmds, target = ['print_mode %s' % mode2, 'cd dir1', 'print_mode iso9660', 'modify_file_in_place FOO.;1 SRC'], '/FOO.;1'
+        oldlen = len(contents[target][1])
+        newdata = random.Random(cs + 1).randbytes(rng.choice([oldlen, max(1, oldlen - 1), ((oldlen + 2047) // 2048) * 2048]))
+        src = os.path.join(tmp, 'src.bin')
+        with open(src, 'wb') as f:
+            f.write(newdata)
+        e = dict(os.environ)
+        e['PYTHONPATH'] = env.REPO
+        p = subprocess.run(['/venv/bin/python', os.path.join(env.REPO, 'tools', 'pycdlib-explorer'), path],
+                           input=('\n'.join(c.replace('SRC', src) for c in cmds) + '\nquit\n').encode(), stdout=subprocess.PIPE, stderr=subprocess.PIPE, env=e, timeout=120)
+        counters['explorer_runs'] = counters.get('explorer_runs', 0) + 1
+        with open(path, 'rb') as f:
+            after = f.read()
+        dec = ecma119.decode(after)
+        for kk, d in dec.all_problems():
+            if 'sort' not in kk:
+                vio.append({'key': 'explorer:invalid-after:%s' % kk, 'detail': d})
+        for ip, (jp, data) in contents.items():
+            want = newdata if ip == target else data
+            for vol, pth in ((dec.pvd, ip), (dec.joliet, jp)):
+                node = vol.tree.get(pth) if vol is not None else None
+                got = ecma119.read_file(after, node) if node is not None else None
+                if got != want:
+                    vio.append({'key': 'explorer:%s:%s' % (scen, 'target-not-modified' if ip == target else 'other-file-modified'),
+                                'detail': 'commands %r: %s holds %r..., expected %r... (tool output: %s)' % (cmds, pth, (got or b'')[:8], want[:8], p.stdout.decode('utf-8', 'replace')[-120:])})
+                    break
+    finally:
+        import shutil
+        shutil.rmtree(tmp, ignore_errors=True)
+    return vio
+
+
 def readonly_case(data0, model, files, rng, counters):
     import os
     import tempfile
@@ -291,6 +359,10 @@ def join_(a, b):
 def run_case(i, seed, tier):
     counters = {}
     cs = seed * 1000003 + i
+    if i % 25 == 11:
+        vio = explorer_case(cs, counters)
+        return {'verdict': 'violated' if vio else 'held', 'violations': [dict(v, replay={'property': PROPERTY, 'explorer_case': cs}) for v in vio],
+                'nontrivial': True, 'shape': 'explorer/%d' % (cs % 64), 'sample': {'explorer_case': cs}, 'counters': counters}
     vio, done = run(cs, counters)
     return {'verdict': 'violated' if vio else 'held',
             'violations': [dict(v, replay={'property': PROPERTY, 'case_seed': cs, 'script': [list(d) for d in done]}) for v in vio],
@@ -299,5 +371,7 @@ def run_case(i, seed, tier):
 
 
 def replay(doc):
+    if 'explorer_case' in doc:
+        return explorer_case(doc['explorer_case'], {})
     vio, _ = run(doc['case_seed'], {}, script=[tuple(x) for x in doc['script']])
     return vio
